@@ -10,10 +10,10 @@ import (
 	"golang.org/x/tools/go/ssa"
 )
 
-// justified exceptions for the index rules: "<pkg-relative function>|<expression>" -> reason
+// justified exceptions for the index rules: "<pkg-relative function>|<type of the indexed value>|<expression with the indexed value as $>" -> reason
 var indexExceptions = map[string]string{
-	"(*tars/util/conf.Conf).InitFromBytes|nodeStack[(len(nodeStack)-1)]":  "the stack starts with the root and is popped only on an EndElement token; encoding/xml (strict mode) reports an end element without a matching start as an error instead of returning the token, and that error now aborts parsing (C17.R1), so the stack never underflows",
-	"(*tars/util/conf.Conf).InitFromBytes|nodeStack[:(len(nodeStack)-1)]": "same argument: a pop always matches an earlier push",
+	"(*tars/util/conf.Conf).InitFromBytes|[]*conf.elem|$[(len($)-1)]":  "the stack starts with the root and is popped only on an EndElement token; encoding/xml (strict mode) reports an end element without a matching start as an error instead of returning the token, and that error now aborts parsing (C17.R1), so the stack never underflows",
+	"(*tars/util/conf.Conf).InitFromBytes|[]*conf.elem|$[:(len($)-1)]": "same argument: a pop always matches an earlier push",
 }
 
 func checkPackageIndexes(r *R, rel string, onlyFuncs func(*ssa.Function) bool) {
@@ -35,7 +35,7 @@ func checkPackageIndexes(r *R, rel string, onlyFuncs func(*ssa.Function) bool) {
 				r.OK(fname(fn), s.expr, s.in.Pos(), "%s", s.why)
 				continue
 			}
-			if why, ok := indexExceptions[fname(fn)+"|"+s.expr]; ok {
+			if why, ok := indexExceptions[fname(fn)+"|"+s.shape]; ok {
 				r.OKLookup(fname(fn), s.expr, s.in.Pos(), "justified exception: %s", why)
 				continue
 			}
